@@ -6,6 +6,7 @@ void dump_more_cond();
 void dump_more_memory();
 void dump_more_msp430dis();
 void dump_more_riscv();
+void dump_more_simtables();
 void dump_more_symbols();
 static void dump_more()
 {
@@ -13,6 +14,7 @@ static void dump_more()
   dump_more_memory();
   dump_more_msp430dis();
   dump_more_riscv();
+  dump_more_simtables();
   dump_more_symbols();
 }
 #endif
